@@ -268,6 +268,22 @@ def body(ctx, case):
         if pairs:
             pairs[0][0].set_label("same")
             pairs[0][1].set_label("same")
+    # a label that consists of digits (also when padded with blanks) lives in the namespace of the generated names
+    # <symbol>_<count>: it must be refused, otherwise two elements get one name without any duplicate label
+    by_sym = {}
+    for e in els:
+        by_sym.setdefault(e.get_symbol(), []).append(e)
+    for group in by_sym.values():
+        if len(group) >= 2 and not group[0].get_label():
+            for text in (" 2", "2 ", "\t2\n"):
+                try:
+                    group[0].set_label(text)
+                    ctx.check(False, "digit-label-refused", case, f"set_label({text!r}) was accepted: the element is now called {circuit.get_element_name(group[0])!r} like the second unlabelled {group[0].get_symbol()}")
+                    group[0].set_label("")
+                except ValueError:
+                    pass
+            labels.add("padded-digit-label")
+            break
     syms = [e.get_symbol() for e in els]
     if any(e[4] is not None for e in G.ast_elements(case["ast"])):
         labels.add("container")
